@@ -134,7 +134,15 @@ def poly_scores(n):
         s += g
         cum.append(s)
     frac = [(-3 + i) * 0.5 + (0.25 if i % 3 == 0 else 0.0) for i in range(n)]
-    return [None, list(range(1, n + 1)), cum, frac, tuple(10 * (i + 1) for i in range(n))]
+    # scores are attached to the levels in LEVEL order; they need not be increasing
+    perm = list(range(n))
+    random.Random(1000 + n).shuffle(perm)
+    decreasing = list(range(n, 0, -1))
+    shuffled = [perm[i] + 1 for i in range(n)]
+    shuffled_uneven = [cum[perm[n - 1 - i]] for i in range(n)]
+    frac_decreasing = list(reversed(frac))
+    return [None, list(range(1, n + 1)), cum, frac, tuple(10 * (i + 1) for i in range(n)),
+            decreasing, shuffled, shuffled_uneven, frac_decreasing]
 
 
 def configs(n, levels):
@@ -371,7 +379,7 @@ def check_encoding(acc, n, ltype, labels, rng, thorough):
                 continue  # quick tier: label VALUES only matter where labels are looked up (base) or ordered
             if kw.get("base") is not None and not thorough and kw["base"] and eff.index(kw["base"]) not in (0, m // 2, m - 1):
                 continue  # quick tier: three base positions
-            if kind == "poly" and kw.get("scores") is not None and not thorough and kw["scores"] != poly_scores(m)[3]:
+            if kind == "poly" and kw.get("scores") is not None and not thorough and kw["scores"] not in (poly_scores(m)[3], poly_scores(m)[7]):
                 continue
             exp_c, _ = closed(spec, m)
             tol = TOL_POLY if kind == "poly" else TOL_RAT
@@ -427,7 +435,7 @@ def check_e2e(acc, n, ltype, labels, rng, thorough):
                 continue
             if kw.get("base") is not None and kw["base"] and eff.index(kw["base"]) not in ((0, n - 1) if not thorough else range(n)):
                 continue
-            if kind == "poly" and kw.get("scores") is not None and kw["scores"] != poly_scores(n)[2]:
+            if kind == "poly" and kw.get("scores") is not None and kw["scores"] not in (poly_scores(n)[2], poly_scores(n)[6], poly_scores(n)[5]):
                 continue
             exp_c, _ = closed(spec, n)
             tol = TOL_POLY if kind == "poly" else TOL_RAT
@@ -517,7 +525,7 @@ def run_bounded(ctx):
     scope = [(n, lt, ctx.seed, ctx.thorough) for n, lt in scope_for(ctx.thorough)]
     full_scope = [(n, lt, ctx.seed, ctx.thorough) for n, lt in scope_for(True)]
     options = ("Treatment/SAS base in {unset} + every level; Sum; Helmert reverse x scale; Diff backward; Poly scores in "
-               "{none, 1..n, irregular ints, fractional, 10*i}; labels str/int/unsorted str/ints around 0 (negatives, 0)/floats around 0.0/"
+               "{none, 1..n, irregular ints, fractional, 10*i, decreasing, shuffled, shuffled irregular, decreasing fractional}; labels str/int/unsorted str/ints around 0 (negatives, 0)/floats around 0.0/"
                "strings incl. the empty string/bool (n<=2)")
     total = {}
     for part, name, exhaustive, rule, bound in (
@@ -529,7 +537,7 @@ def run_bounded(ctx):
          "one case per (contrast + options, data vector kind, levels mode, label type, n, reduced/full, output, container) for "
          "encode_contrasts, and per (contrast, levels mode, intercept, output) for C(x, K) inside model_matrix; oracle = indicator @ closed form",
          "n=1..12; " + options + "; data vectors: all levels, random (seeded), absent levels, nulls, values outside levels=; levels "
-         "inferred/explicit/permuted; outputs pandas/numpy/sparse (quick tier: 3 base positions + every falsy label as base, 2 score vectors, Series only; label-value types: treatment/SAS/sum only)"),
+         "inferred/explicit/permuted; outputs pandas/numpy/sparse (quick tier: 3 base positions + every falsy label as base, 3 score vectors (one shuffled), Series only; label-value types: treatment/SAS/sum only)"),
     ):
         with ctx.bounded(name, rule=rule, exhaustive=exhaustive, bound=bound) as b:
             with ProcessPoolExecutor(16) as ex:
